@@ -69,7 +69,10 @@ class FakeProcess:
             self.state = "terminating"
 
     def join(self, timeout: Any = None) -> None:
-        self.env.trace("join", self)
+        self.env.trace("join", self, timeout)
+        if timeout is not None and self.state == "terminating":
+            # worst-case environment: a worker that takes longer to exit than any finite timeout
+            return
         if self.state in ("terminating", "zombie"):
             self.state = "reaped"
         elif self.state == "alive":
